@@ -135,9 +135,16 @@ fn tac(tag: &Tag, tokens: &mut Tokenizer) -> Result<Val, Error> {
 }
 
 fn doctype(name: &str, external: Option<ExternalId>, internal: Option<&str>) -> Val {
+    // the literals are quoted, such that the external ID can be written back as is
+    let quote = |s: &str| {
+        let q = if s.contains('"') { '\'' } else { '"' };
+        format!("{q}{s}{q}")
+    };
     let external = external.map(|ext| match ext {
-        ExternalId::System(system) => format!("SYSTEM {system}"),
-        ExternalId::Public(pub_id, system) => format!("PUBLIC {pub_id} {system}"),
+        ExternalId::System(system) => format!("SYSTEM {}", quote(system.as_str())),
+        ExternalId::Public(pub_id, system) => {
+            format!("PUBLIC {} {}", quote(pub_id.as_str()), quote(system.as_str()))
+        }
     });
     make_obj([
         ("name", Some(name.to_owned())),
